@@ -264,8 +264,11 @@ func (s *Sim) serve() {
 			case "ok", "noise-then-ok":
 				if s.ConnectReply == "noise-then-ok" {
 					// frames of other kinds about this connection before the answer: an echo of the 'v' request, an unproto frame
+					// (spaced out: frames that arrive back to back are dropped - the known finding)
 					c.Write(Frame{Port: f.Port, Kind: 'v', From: f.To, To: f.From, Data: []byte{0}}.Encode())
+					time.Sleep(60 * time.Millisecond)
 					c.Write(Frame{Port: f.Port, Kind: 'U', From: f.To, To: f.From, Data: []byte("1:Fm X To Y <UI pid=F0 Len=1 >[12:00:00]\rx\r")}.Encode())
+					time.Sleep(60 * time.Millisecond)
 				}
 				reply = &Frame{Port: f.Port, Kind: 'C', From: f.To, To: f.From, Data: []byte("*** CONNECTED With Station " + f.To + "\r\x00")}
 			case "refuse":
